@@ -39,7 +39,9 @@ def check(prog, run):
     run.rule("R5", "sample flags/times are the submitted ones: no field of a queued sample is overwritten between write and segment building")
     from . import c10, common as _common
     try:
-        c10.immutable_samples(_common.Ctx(prog), run, "R5")
+        _cx = _common.Ctx(prog)
+        c10.immutable_samples(_cx, run, "R5")
+        c10.verbatim_record(_cx, run, "R5")
     except Exception as e:      # anchors of the shared context missing: reported by the rules below as well
         run.bad("R5", "anchor", "cannot build the analysis context: %s" % e)
     run.rule("R1", "trun per-sample fields: duration = next.dts - this.dts (when a next element exists), cts = pts - dts (signed), flags constants with the non-sync bit exactly on the non-sync arm")
